@@ -40,6 +40,8 @@ type c08Obj struct {
 type c08Model struct {
 	Uploads map[string]*c08Upload // symbolic name u1..u3 → upload
 	Objects map[string]c08Obj
+	// DirObj: the directory object "k2/" (the key of upload u3 with a trailing slash) exists
+	DirObj bool
 }
 
 func (m *c08Model) key() string {
@@ -70,6 +72,7 @@ func (m *c08Model) key() string {
 	for _, k := range ks {
 		fmt.Fprintf(&b, "%s=%s/%s/%s;", k, hashS(m.Objects[k].Data), m.Objects[k].ETag, m.Objects[k].Meta)
 	}
+	fmt.Fprintf(&b, "dirobj=%v", m.DirObj)
 	return b.String()
 }
 
@@ -123,7 +126,7 @@ func c08Alphabet(thorough bool) []c08Op {
 	}
 	ops = append(ops, c08Op{Kind: "complete", U: "u2", Spec: "1"}, c08Op{Kind: "complete", U: "u2", Spec: "1,2"}, c08Op{Kind: "complete", U: "u3", Spec: "1"},
 		c08Op{Kind: "abort", U: "u1"}, c08Op{Kind: "abort", U: "u2"},
-		c08Op{Kind: "part-refused", U: "u1", N: 1, Data: "B"}, c08Op{Kind: "complete-other-key", U: "u1"}, c08Op{Kind: "abort-other-key", U: "u1"})
+		c08Op{Kind: "putdir", U: "u3"}, c08Op{Kind: "part-refused", U: "u1", N: 1, Data: "B"}, c08Op{Kind: "complete-other-key", U: "u1"}, c08Op{Kind: "abort-other-key", U: "u1"})
 	return ops
 }
 
@@ -282,6 +285,13 @@ func (c *c08Runner) apply(m *c08Model, o c08Op) string {
 			}
 			return ""
 		}
+		if key == "k2" && m.DirObj {
+			// the key of a file object cannot take the place of the directory object "k2/"
+			if err == nil {
+				return "complete-replaced-a-directory-object"
+			}
+			return ""
+		}
 		if err != nil {
 			return "valid-complete-refused:" + errClassAPI(err)
 		}
@@ -291,6 +301,20 @@ func (c *c08Runner) apply(m *c08Model, o c08Op) string {
 		}
 		m.Objects[key] = c08Obj{Data: all, ETag: mpETagOf(datas), Meta: up.Meta}
 		delete(m.Uploads, o.U)
+	case "putdir":
+		// the directory object "k2/"
+		k := "k2/"
+		_, err := p.PutObject(st.ctx(), s3response.PutObjectInput{Bucket: sp(c08Bucket), Key: &k, Body: bytes.NewReader(nil), ContentLength: i64(0), Metadata: map[string]string{"w": "dir"}})
+		if _, isFile := m.Objects["k2"]; isFile {
+			if err == nil {
+				return "directory-object-created-below-a-file-object"
+			}
+			return ""
+		}
+		if err != nil {
+			return "put-directory-object-failed:" + errClassAPI(err)
+		}
+		m.DirObj = true
 	case "part-refused":
 		// an UploadPart that must be refused (fewer bytes than declared): whatever was uploaded under that number before stays
 		data := c08Data[o.Data]
@@ -407,6 +431,12 @@ func (c *c08Runner) observe(m *c08Model) []string {
 			an = append(an, "completed-object-wrong-metadata")
 		}
 	}
+	if m.DirObj {
+		k := "k2/"
+		if h, err := p.HeadObject(st.ctx(), &s3.HeadObjectInput{Bucket: sp(c08Bucket), Key: &k}); err != nil || h.Metadata["w"] != "dir" {
+			an = append(an, "directory-object-gone-or-changed")
+		}
+	}
 	// listing never shows parts / uploads
 	empty := ""
 	max := int32(1000)
@@ -421,6 +451,9 @@ func (c *c08Runner) observe(m *c08Model) []string {
 		var want []string
 		for k := range m.Objects {
 			want = append(want, k)
+		}
+		if m.DirObj {
+			want = append(want, "k2/")
 		}
 		sort.Strings(want)
 		sort.Strings(got)
@@ -580,7 +613,7 @@ func C08(r *ck.Run) {
 	if r.Thorough() {
 		depth = 4
 	}
-	r.Rule(fmt.Sprintf("breadth-first search over every program of length <= %d of 41 (thorough 43) operations — uploadPart with a short body (refused), completion and abort naming another key (refused), uploadPart (2 uploads of the same key + 1 of another key, part numbers 1-2 and sparse 5, 9, 10-byte / 12-byte / 3-byte bodies, re-uploads included), uploadPartCopy with 9 source ranges (whole, sub-ranges, last byte, end equal to and beyond the source size, garbage), complete with 11 part specifications (valid, reordered, repeated, missing, wrong ETag, too-small non-last part), abort — on a real posix backend (minimum part size shrunk to 8 bytes by the overlay), states deduplicated on the reference multipart model; after EVERY step a second backend instance checks GET of both keys (bytes, multipart ETag, initiation metadata), ListObjectsV2, ListParts of every upload (max-parts 1000 and 1) and ListMultipartUploads (max-uploads 1000 and 1, markers followed, markers that name no upload in progress); distinct = distinct state", depth))
+	r.Rule(fmt.Sprintf("breadth-first search over every program of length <= %d of 42 (thorough 44) operations — a directory object put at the key of an upload with a trailing slash (the completion must not replace it), uploadPart with a short body (refused), completion and abort naming another key (refused), uploadPart (2 uploads of the same key + 1 of another key, part numbers 1-2 and sparse 5, 9, 10-byte / 12-byte / 3-byte bodies, re-uploads included), uploadPartCopy with 9 source ranges (whole, sub-ranges, last byte, end equal to and beyond the source size, garbage), complete with 11 part specifications (valid, reordered, repeated, missing, wrong ETag, too-small non-last part), abort — on a real posix backend (minimum part size shrunk to 8 bytes by the overlay), states deduplicated on the reference multipart model; after EVERY step a second backend instance checks GET of both keys (bytes, multipart ETag, initiation metadata), ListObjectsV2, ListParts of every upload (max-parts 1000 and 1) and ListMultipartUploads (max-uploads 1000 and 1, markers followed, markers that name no upload in progress); distinct = distinct state", depth))
 	r.Assume("backend.MinPartSize is 8 bytes in this build (overlay constant), everything else is the real code; upload listings are compared as sets plus pagination completeness")
 	cfgs := []pxCfg{{}}
 	if r.Thorough() {
